@@ -551,6 +551,40 @@ def impl_tree(imp):
     return roots
 
 
+IN_ORDER_CHECKED = [0]
+
+
+def trace_in_order(steps, nxt=0):
+    """Python mirror of coq/C14/Order.v [in_order] on the events of one implementation task (theorem task_trace_in_order
+    proves it of every model trace): statements entered in index order without gaps, re-entered only after a loop yield
+    of that statement, nothing entered after a return. Returns None or a description of the first offending event."""
+    returned = False
+    for k, stp in enumerate(steps):
+        for e in stp:
+            if e[0] == "o":
+                continue
+            if returned:
+                if e[0] == "x":
+                    return "step %d: statement %s entered after a return" % (k, e[1:])
+                continue
+            if e[0] == "x":
+                i = int(e[1:])
+                if i != nxt:
+                    return "step %d: statement %d entered where %d was due" % (k, i, nxt)
+                nxt = i + 1
+            elif e[0] == "y":
+                fl, i = e[1:].split(":")
+                if int(i) + 1 != nxt:
+                    return "step %d: yield of statement %s while %d is due" % (k, i, nxt)
+                if fl == "1":
+                    nxt = int(i)
+            elif e[0] == "r":
+                if int(e[1:]) + 1 != nxt:
+                    return "step %d: return of statement %s while %d is due" % (k, e[1:], nxt)
+                returned = True
+    return None
+
+
 def compare(case, model, imp):
     """Mech model vs implementation. Returns list of difference strings (empty = equal)."""
     diffs = []
@@ -574,6 +608,12 @@ def compare(case, model, imp):
                     w, k, " ".join(ms[k]) if k < len(ms) else "<none>", " ".join(is_[k]) if k < len(is_) else "<none>"))
             cmp_nodes(a["kids"], b["kids"], w)
     cmp_nodes(mt, it, "main")
+    # the trace invariant of Properties_C14_order.v on the implementation's own traces (decisive without the model)
+    for t in imp["order"]:
+        IN_ORDER_CHECKED[0] += 1
+        bad = trace_in_order(imp["tasks"][t]["steps"])
+        if bad:
+            diffs.append("task %d of the implementation breaks 'once, in order': %s" % (t, bad))
     # awaited values printed by main
     exp = []
     for i in case["awaits"]:
@@ -974,7 +1014,7 @@ def run(rep):
         "exhaustive_space": "all sequences of length <= %d over 66 statement skeletons (emit/yield/await/return at top level and at every "
                             "position of 0-2-statement if / else / block / while / for bodies): %d bodies" % (exh_len, nseq),
         "input_distribution": hist, "shape_histogram": flaghist, "dropped_by_model_bounds": dropped,
-        "tasks": tasks_total, "steps_compared": steps_total, "cases_in_fragment": n_wf_cases,
+        "tasks": tasks_total, "steps_compared": steps_total, "implementation_task_traces_checked_in_order": IN_ORDER_CHECKED[0], "cases_in_fragment": n_wf_cases,
         "spec_equal": n_spec_equal, "spec_differs_on_known_shape": n_spec_diff_known,
         "disagreements": len(corr_bad), "spec_failures_outside_known_shapes": len(spec_bad),
         "samples": samples,
